@@ -120,7 +120,7 @@ func ruleHostile(c *core.Ctx) {
 		runMember(c, mb, ruleSet("A-PANIC", "A-GENERR"), 256, func(w *fam.World, fm *fam.FileModel) []fam.Issue { return nil })
 	}
 	// a referenced file is processed as a whole: an ungeneratable definition anywhere in it fails the run (also without $id)
-	ruleMultiSel(c, ruleSet("A-SILENT", "A-ROUTE", "A-GENERR"), 2, "two files without $id")
+	ruleMultiSel(c, ruleSet("A-SILENT", "A-ROUTE", "A-GENERR", "A-PANIC"), 3, "two files without $id", "document without a root")
 	c.Floor("families", c.Counts["members"], 300, "valid family members generated without panic")
 }
 
